@@ -53,8 +53,8 @@ pub fn router_campaign() -> SimCampaign {
             avoid: avoid_all(),
             ..Flags::default()
         },
-        quick: 10_000,
-        thorough: 250_000,
+        quick: 25000,
+        thorough: 500000,
         nontrivial,
         probes: vec![],
         // some client ids carry topic metacharacters: they must never be registered
